@@ -16,3 +16,5 @@ import RenetVerif.Props.SrcTieSlice
 import RenetVerif.Props.SrcTiePacket
 import RenetVerif.Props.SrcTieAcks
 import RenetVerif.Props.SrcTieTokenTable
+import RenetVerif.Props.SrcTieNcSerialize
+import RenetVerif.Props.SrcTieNcToken
